@@ -33,11 +33,14 @@ def c03(ctx: Ctx):
     ]
     if ctx.replay:
         v = ctx.replay["violation"]
-        write_ndjson(cases, [dict(d=v["d"], ver=v["ver"], doc=v["doc"], ext=v.get("ext", []))])
+        hist = v.get("hist") or dict(entry="fresh", prior=[])
+        write_ndjson(cases, [dict(d=v["d"], ver=v["ver"], doc=v["doc"], ext=v.get("ext", []), hist=hist)])
         ncases = 1
     else:
         # D: without the listed deviations the implementation-shaped model must still break the contract (model drift guard)
         ctx.tlc("MC_C03", "MC_C03_pinned.cfg", expect_violation=True, label="D pinned-model counterexample")
+        # D: a root UnmarshalJSON that decodes into its receiver in place must break the receiver contract (RecvL1)
+        ctx.tlc("MC_C03", "MC_C03_pinned_recv.cfg", expect_violation=True, label="D pinned in-place receiver counterexample")
         # D + F: Norm laws, L2 => L1 over the whole universe, and emission of every case
         # the seed only selects the pseudo-random field subsets (mode "rand"); Python copies the cfg with Seed substituted
         cfg = open(ctx.spec("MC_C03_%s.cfg" % tier)).read().replace("Seed = 1", "Seed = %d" % (ctx.seed % 60000))
@@ -47,7 +50,8 @@ def c03(ctx: Ctx):
         ctx.unquote(ctx.spec("cases.ndjson"), raw)
         seen, out = set(), []
         for l in open(raw):
-            h = casehash(json.loads(l)["doc"])
+            o = json.loads(l)
+            h = casehash([o["doc"], o.get("hist")])
             if h not in seen:
                 seen.add(h)
                 out.append(l)
@@ -56,19 +60,19 @@ def c03(ctx: Ctx):
             f.writelines(out)
         ncases = len(out)
         ctx.exhaustive = True
-        ctx.extra["generator_constants"] = dict(quick=dict(MaxGrow=1, MaxGrowExt=0, MaxShrink=1, RandPerKind=4),
-                                                thorough=dict(MaxGrow=3, MaxGrowExt=2, MaxShrink=1, RandPerKind=60))[tier]
+        ctx.extra["generator_constants"] = dict(quick=dict(MaxGrow=1, MaxGrowExt=0, MaxShrink=1, RandPerKind=4, MaxHist=1),
+                                                thorough=dict(MaxGrow=3, MaxGrowExt=2, MaxShrink=1, RandPerKind=60, MaxHist=2))[tier]
         log("[gen] %d distinct documents" % ncases)
     ctx.build_driver()
     logp = os.path.join(ctx.scratch, "log.ndjson")
-    ctx.drive(cases, logp, env={"VERIF_REPO": ctx.repo})
+    ctx.drive(cases, logp, env={"VERIF_REPO": ctx.repo}, shards=4)
     rng = random.Random(ctx.seed)
-    nlines = fixtures = 0
+    nlines = fixtures = histories = 0
     kinds = set()
     for l in open(logp):
         o = json.loads(l)
         nlines += 1
-        trips = [k for k in o["obs"] if k != "msgs"]
+        trips = [k for k in o["obs"] if k not in ("msgs", "pr")]
         ctx.evaluations += len(trips)
         d = o["d"]
         if d.get("mode") == "fixture":
@@ -76,13 +80,18 @@ def c03(ctx: Ctx):
         else:
             kinds.add(d.get("kind", "special"))
         # non-trivial: the object under test carries something beyond its required fields
-        if d.get("mode") in ("special", "fixture", "rand") or d.get("fv") or d.get("ext") not in (None, "none"):
+        hist = o.get("hist") or {}
+        if hist.get("prior"):
+            histories += 1
+            ctx.nontrivial.add(casehash([o["c"], hist["entry"], [p["name"] for p in hist["prior"]]]))
+        elif d.get("mode") in ("special", "fixture", "rand") or d.get("fv") or d.get("ext") not in (None, "none"):
             ctx.nontrivial.add(casehash(o["c"]))
         if rng.random() < 6.0 / max(nlines, 2000):
             ctx.samples.append(_descr(o))
     if nlines < ncases:
         raise Infra("log has %d lines for %d cases" % (nlines, ncases))
     ctx.extra["fixtures_replayed"] = fixtures
+    ctx.extra["history_lines"] = histories
     ctx.extra["kinds_exercised"] = len(kinds)
     ctx.rule = ("cases = every state of spec/Gen_C03.tla within (MaxGrow, MaxGrowExt, MaxShrink): per object kind the bare object, every single "
                 "field in every variant of its category (typical, meaningful zero, redundant default, null, number beyond float64, $ref, $ref with "
